@@ -59,7 +59,28 @@ def run_workers(prop, tier, seed, cfg, workdir, replay=None):
         else:
             with open(log.name) as f:
                 tail = f.read()[-3000:]
-            errors.append('shard %d exited %d without a result:\n%s' % (s, rc, tail))
+            cur = None
+            if rc < 0 and os.path.exists(out + '.current'):
+                try:
+                    with open(out + '.current') as f:
+                        cur = json.load(f)
+                except Exception:
+                    cur = None
+            if cur is not None:
+                # the interpreter was killed by a signal while the code under test was running this
+                # descriptor: memory corruption / abort in the code under test, not a harness error
+                import signal as _signal
+
+                try:
+                    signame = _signal.Signals(-rc).name
+                except ValueError:
+                    signame = 'SIG%d' % -rc
+                sig = 'process-killed:%s' % signame
+                results.append({'evaluations': 1, 'nt_hashes': [], 'classes': {}, 'rejects': {}, 'by_origin': {'crashed': 1}, 'samples': [], 'harness_errors': [],
+                                'violations': {sig: {'count': 1, 'desc': cur['desc'], 'detail': 'worker shard %d died with %s while running this case (origin %s); log tail: %s' % (s, signame, cur.get('origin'), tail[-400:]), 'origin': 'crash-journal', 'size': len(dumps(cur['desc']))}},
+                                'corpus_results': {}, 'replay_signature': sig})
+            else:
+                errors.append('shard %d exited %d without a result:\n%s' % (s, rc, tail))
     return results, errors
 
 
